@@ -1836,7 +1836,8 @@ class NLDFAuxiliaryPlan(ABC):
             functional derivatives with respect to the nonlocal
             density integrals.
         """
-        vfeat[:] *= self.nspin
+        # scaled copy: the caller's array is left untouched
+        vfeat = vfeat * self.nspin
         if vf is None:
             vf = self.zero_coefs_full(vfeat.shape[1])
         if self.coef_order == "qg":
